@@ -33,8 +33,12 @@ func runReplies(cfg *RunCfg) {
 	})
 	defer erpc.VerifSetGate(nil)
 	distinct := DistinctSet{}
-	classes := []string{"ok", "dup2", "dup3", "wrong-seq", "error-status", "bad-body", "reply+garbage", "reply+oversize", "truncated", "nothing"}
+	classes := []string{"ok", "dup2", "dup3", "wrong-seq", "error-status", "bad-body", "reply+garbage", "reply+oversize", "truncated", "nothing", "close-then-eof", "close-then-oversize", "close-then-reply"}
 	for i := 0; i < cfg.N; i++ {
+		if len(st.OracleFailures) >= 6 {
+			st.Count("stopped-early-after-failures")
+			break // every failing case costs its watchdogs; six precise failures are enough
+		}
 		erpc.SetReadLimit(65536)
 		class := classes[r.Intn(len(classes))]
 		ncalls := 1 + r.Intn(3)
@@ -76,6 +80,22 @@ func runReplies(cfg *RunCfg) {
 			m.SetMtype(erpc.TypeReply)
 			m.SetSeq(seq)
 			rp.Sock.WriteMessage(m)
+		}
+		closeDone := make(chan struct{})
+		closing := class == "close-then-eof" || class == "close-then-oversize" || class == "close-then-reply"
+		if closing {
+			// the application closes the session while its calls are outstanding; only then does
+			// the hostile peer end (or poison) the stream
+			go func() { sess.Close(); close(closeDone) }()
+			WaitUntil(2*time.Second, func() bool { return erpc.VerifStatusName(erpc.VerifSessionStatus(sess)) == "active-closing" })
+			switch class {
+			case "close-then-oversize":
+				sc.Write([]byte{0x7f, 0xff, 0xff, 0xff})
+			case "close-then-reply":
+				if len(seqs) > 0 {
+					reply(seqs[0], []byte(`"r"`), nil)
+				}
+			}
 		}
 		for _, seq := range seqs {
 			switch class {
@@ -127,6 +147,13 @@ func runReplies(cfg *RunCfg) {
 			st.Fail(i, "wedged-after-input", "calling session did not end within 8 s after the reply stream was exhausted (reader, a reply handler or Close is blocked)", human)
 		}
 		time.Sleep(20 * time.Millisecond)
+		if closing {
+			select {
+			case <-closeDone:
+			case <-time.After(8 * time.Second):
+				st.Fail(i, "close-blocked", "Session.Close() did not return within 8 s after the peer ended the stream", human)
+			}
+		}
 		if extra := len(ch); extra != len(cmds) {
 			st.Fail(i, "completion-count", fmt.Sprintf("%d deliveries on the completion channel for %d calls", extra, len(cmds)), human)
 		}
